@@ -140,7 +140,7 @@ theorem inmem_push_eq (H : HashFn) (storage : Storage) (leaves : List Bytes) (hn
 
 /-- a toy injective-on-short-inputs "hash" that satisfies `hE` (so the hypotheses are satisfiable by a
 concrete function; SHA-256 satisfies it by the `K` line of stream c09) -/
-def toyH : HashFn := fun b => if b = [] then emptySum else b
+def toyH : HashFn := toyHash
 
 example : toyH [] = emptySum := rfl
 
